@@ -308,24 +308,43 @@ func (m *Model) RunPathAPI(s *Sink, rule string) {
 	// layouts are not directly renderable
 	pp := m.PkgFuncOr("textwire", "parsePrograms", func(f *ssa.Function) bool { return callsNamed(f, "HasReserveStmt", "ast.Program") })
 	if pp != nil {
-		ok := false
-		var pos string
-		for _, b := range pp.Blocks {
-			for _, in := range b.Instrs {
-				if mu, isMu := in.(*ssa.MapUpdate); isMu {
+		// every store of a parsed program into a table of the root package sits where the program declares no reserves —
+		// in its own function, or at every call site of the helper that makes the store
+		progT := m.namedType("ast", "Program")
+		noReserves := func(b *ssa.BasicBlock) bool {
+			for _, f := range expandFacts(factsAt(b)) {
+				if c, isC := f.Cond.(*ssa.Call); isC && !f.Holds && c.Call.StaticCallee() != nil && canonFnName(c.Call.StaticCallee()) == "HasReserveStmt" {
+					return true
+				}
+			}
+			return false
+		}
+		n, bad, pos := 0, "", ""
+		for _, fn := range m.ModFns {
+			if fn.Blocks == nil || shortPkg(fnPkgPath(fn)) != "textwire" {
+				continue
+			}
+			for _, b := range fn.Blocks {
+				for _, in := range b.Instrs {
+					mu, isMu := in.(*ssa.MapUpdate)
+					if !isMu || progT == nil {
+						continue
+					}
+					if pn := ptrNamed(mu.Value.Type()); pn == nil || pn != progT {
+						continue
+					}
+					n++
 					pos = m.InstrPos(mu)
-					for _, f := range expandFacts(factsAt(b)) {
-						if c, isC := f.Cond.(*ssa.Call); isC && !f.Holds && c.Call.StaticCallee() != nil && canonFnName(c.Call.StaticCallee()) == "HasReserveStmt" {
-							ok = true
-						}
+					if ok, at := m.guardedLifting(mu, noReserves, 0); !ok && bad == "" {
+						bad = at
 					}
 				}
 			}
 		}
-		if ok {
+		if n > 0 && bad == "" {
 			s.OK(rule, fnKey(pp)+"|layouts are not registered", pos, "a program is registered only when it declares no reserves")
 		} else {
-			s.Violation(rule, fnKey(pp)+"|layouts are not registered", m.Pos(pp.Pos()), "files that declare reserves (layouts) are registered as renderable templates")
+			s.Violation(rule, fnKey(pp)+"|layouts are not registered", m.Pos(pp.Pos()), "files that declare reserves (layouts) are registered as renderable templates (%s)", bad)
 		}
 	}
 	m.RunTemplateLookup(s, rule)
